@@ -453,6 +453,8 @@ for _pid in ("C04", "C06", "C07", "C17", "C18"):
                              "matches of up to 5 MiB (overlapping copies whose doubling passes 1 MiB, offsets beyond 2^16 and 2^20), "
                              "Init again with another geometry, writer faults with megabytes pending; same oracles.")
 
+CHECKS["C13"]["quick"]["tests"].append({"test": "TestC13ManyResets", "checks": 300, "subchecks": KINDS7})
+CHECKS["C13"]["thorough"]["tests"].append({"test": "TestC13ManyResets", "checks": 1000, "subchecks": KINDS7})
 CHECKS["C13"]["quick"]["tests"].append({"test": "TestC13Enum", "checks": 1, "subchecks": 3337242})
 CHECKS["C13"]["thorough"]["tests"].append({"test": "TestC13Enum", "checks": 1, "subchecks": 10403610, "once": True,
                                            "env": {"VERIF_C13_H1": "8", "VERIF_C13_H2": "10"}})
